@@ -9,7 +9,7 @@ from ksiverif.runner import Config, Engine  # noqa: E402
 STATUS = [0x101, 0x102, 0x104, 0x200, 0x301, 0x999]
 
 
-def rstep(rng, nadded):
+def rstep(rng, nadded, STATUS=STATUS):
     r = rng.random()
     k = rng.randrange(max(1, nadded + 1))
     if r < 0.25:
@@ -150,9 +150,40 @@ def gen_conf(rng, tier):
         yield "async 64 10 10 %s" % ",".join(steps + DRAIN(nplain + 2))
 
 
+# statuses whose meaning differs between the two services; per history a set on which the translation of the model's codes is unambiguous
+EXT_SETS = [[0x101, 0x102, 0x104, 0x200, 0x301], [0x105, 0x106, 0x107, 0x201], [0x104, 0x202, 0x300], [0x999, 0x103, 0x105]]
+
+
+def gen_ext(rng, tier):
+    """the extending service: the same schedules, replies are extension PDUs (a status-0 reply carries a calendar chain for the
+    requested aggregation time)"""
+    big = tier == "thorough"
+    for st in (0x101, 0x102, 0x103, 0x104, 0x105, 0x106, 0x107, 0x200, 0x201, 0x202, 0x300, 0x301, 0x999):
+        yield "asyncx 4 10 10 a,a,run,srv:ok:0,run,srv:errpdu:0:%d,run,run,run" % st
+        yield "asyncx 4 10 10 a,a,run,srv:status:1:%d,run,run,srv:ok:0,run,run" % st
+    for i in range(300 if not big else 6000):
+        cache = rng.choice([1, 2, 3, 4, 8, 16])
+        rcv = rng.choice([0, 1, 5, 10, 10, 10])
+        snd = rng.choice([0, 5, 10, 10, 10])
+        sset = rng.choice(EXT_SETS)
+        steps, nadded = [], 0
+        for _ in range(rng.randrange(3, 50)):
+            s = rstep(rng, nadded, sset)
+            if s == "a":
+                nadded += 1
+            if s.startswith("srv:stale"):
+                # a reply bearing the NEXT generation of an identifier would sit in the stream before the request that gets that
+                # identifier exists; an extension reply is specific to its request (aggregation time), so this cannot be scripted ahead
+                s = s.replace("stale", "unk")
+            steps.append(s)
+        steps += ["run"] * rng.randrange(0, 5)
+        yield "asyncx %d %d %d %s" % (cache, rcv, snd, ",".join(steps))
+
+
 def gen_all(rng, tier):
     yield from gen(rng, tier)
     yield from gen_conf(rng, tier)
+    yield from gen_ext(rng, tier)
 
 
 CONFIG = Config()
